@@ -153,7 +153,12 @@ impl FixtureDatabase {
                 elements.join(", ")
             }
             Expr::Constant(constant) => {
-                format!("{:?}", constant.value)
+                // Print a constant the way it is written in the source (`"Conn"`, `None`, `...`),
+                // not as the parser's debug representation (`Str("Conn")`).
+                content
+                    .get(constant.range.start().to_usize()..constant.range.end().to_usize())
+                    .map(|text| text.to_string())
+                    .unwrap_or_else(|| format!("{:?}", constant.value))
             }
             Expr::BinOp(binop) if matches!(binop.op, rustpython_parser::ast::Operator::BitOr) => {
                 format!(
